@@ -295,9 +295,13 @@ def check_ready(f, rep):
                 return x[0] in ("call", "pure") and short(x[1]) == "get" and len(x[2]) == 2 and any(tables.const_str(y) == "Identity" for y in walk_expr(x[2][1]))
             converted = pathq.mentions_call(p.ret, conv_call) is not None and pathq.ok_decided(p, conv_call)
             val = p.ret[4][0] if p.ret[0] == "agg" and p.ret[4] else p.ret
-            defaulted = val[0] in ("call", "pure") and short(val[1]) in ("default", "new") and "PeerIdentity" in val[1] and \
-                pathq.option_decided(p, id_prop) == 0
-            rep.check((ident and tr_ok) or converted or defaulted, "R04.1", "R04.1|ready|identity-checked",
+            # "absent": an Option derived from get("Identity") (directly, or the transposed Option<PeerIdentity>) decided None
+            absent = any(e[0] == "discr" and c == ("eq", 0) and not (e[1][0] in ("call", "pure") and short(e[1][1]) == "branch") and
+                         any(isinstance(y, tuple) and y and id_prop(y) for y in walk_expr(e[1])) for (e, c, _, _) in p.conds)
+            defaulted = val[0] in ("call", "pure") and short(val[1]) in ("default", "new") and "PeerIdentity" in val[1] and absent
+            chain = tr_ok and pathq.mentions_call(val, lambda x: short(x[1]) == "transpose" and
+                                                  any(isinstance(y, tuple) and y and id_prop(y) for y in walk_expr(x))) is not None
+            rep.check((ident and tr_ok) or chain or converted or defaulted, "R04.1", "R04.1|ready|identity-checked",
                       "the admitted identity is the checked conversion of the Identity property or a default "
                       "(transpose()? decided Ok: %s; conversion decided Ok: %s; default when absent: %s)" % (ident and tr_ok, converted, defaulted), b.loc())
         rep.floor("R04.1", "Ok exits of the READY exchange", n, 1)
